@@ -53,7 +53,7 @@ theorem exMedia_wf : WFMedia exMedia where
     subst hc
     show WFCodecFull "audio".toList exCodec
     have base : WFCodec "audio".toList "opus".toList (strip exCodec) :=
-      { mime := by decide, kind_slash := by decide, name_slash := by decide, chan := by decide, fb := rfl, params := rfl }
+      { mime := by decide, cname := by decide, name_slash := by decide, chan := by decide, fb := rfl, params := rfl }
     have hfb : ∀ f ∈ exCodec.rtcpFeedback, WFFeedback f := by
       intro f hf
       have : f = ⟨"nack".toList, some "pli".toList⟩ := List.mem_singleton.mp hf
